@@ -83,7 +83,66 @@ impl<'a> LuaParser<'a> {
         LuaSyntaxTree::new(root, errors)
     }
 
+    #[cfg(emmyluals_emmylua_analyzer_rust_verif)]
+    #[allow(clippy::type_complexity)]
+    pub(crate) fn verif_parse_trace(
+        text: &'a str,
+        config: ParserConfig,
+    ) -> (
+        Vec<LuaTokenData>,
+        Vec<LuaTokenData>,
+        Vec<MarkEvent>,
+        usize,
+        LuaSyntaxTree,
+    ) {
+        let mut errors: Vec<LuaParseError> = Vec::new();
+        let tokens = {
+            let mut lexer =
+                LuaLexer::new(Reader::new(text), config.lexer_config(), Some(&mut errors));
+            lexer.tokenize()
+        };
+        let lexed = tokens.clone();
+
+        let mut parser = LuaParser {
+            text,
+            events: Vec::new(),
+            tokens,
+            token_index: 0,
+            current_token: LuaTokenKind::None,
+            parse_config: config,
+            mark_level: 0,
+            errors: &mut errors,
+            ternary_depth: 0,
+            paren_depth: 0,
+            ternary_paren_depth: 0,
+        };
+
+        parse_chunk(&mut parser);
+        let errors = parser.get_errors();
+        let events = parser.events.clone();
+        let tokens_after = parser.tokens.clone();
+        let mark_level = parser.mark_level;
+        let root = {
+            let mut builder = LuaTreeBuilder::new(
+                parser.origin_text(),
+                parser.events,
+                parser.parse_config.node_cache(),
+            );
+            builder.build();
+            builder.finish()
+        };
+        (
+            lexed,
+            tokens_after,
+            events,
+            mark_level,
+            LuaSyntaxTree::new(root, errors),
+        )
+    }
+
     pub fn init(&mut self) {
+        #[cfg(emmyluals_emmylua_analyzer_rust_verif)]
+        crate::verif::rec(|| crate::verif::VerifOp::Init);
         if self.tokens.is_empty() {
             self.current_token = LuaTokenKind::TkEof;
         } else {
@@ -147,6 +206,8 @@ impl<'a> LuaParser<'a> {
     }
 
     pub fn set_current_token_kind(&mut self, kind: LuaTokenKind) {
+        #[cfg(emmyluals_emmylua_analyzer_rust_verif)]
+        crate::verif::rec(|| crate::verif::VerifOp::SetTokenKind(kind));
         if self.token_index < self.tokens.len() {
             self.tokens[self.token_index].kind = kind;
             self.current_token = kind;
@@ -154,6 +215,8 @@ impl<'a> LuaParser<'a> {
     }
 
     pub fn bump(&mut self) {
+        #[cfg(emmyluals_emmylua_analyzer_rust_verif)]
+        crate::verif::rec(|| crate::verif::VerifOp::Bump);
         if !is_invalid_kind(self.current_token) && self.token_index < self.tokens.len() {
             let token = &self.tokens[self.token_index];
             self.events.push(MarkEvent::EatToken {
@@ -350,7 +413,13 @@ impl<'a> LuaParser<'a> {
         }
 
         let tokens = &comment_tokens[..trivia_token_start];
+        #[cfg(emmyluals_emmylua_analyzer_rust_verif)]
+        crate::verif::rec(|| crate::verif::VerifOp::DocBegin {
+            tokens: tokens.to_vec(),
+        });
         LuaDocParser::parse(self, tokens);
+        #[cfg(emmyluals_emmylua_analyzer_rust_verif)]
+        crate::verif::rec(|| crate::verif::VerifOp::DocEnd);
 
         for token in comment_tokens.iter().skip(trivia_token_start) {
             self.events.push(MarkEvent::EatToken {
